@@ -124,7 +124,7 @@ func SavePlan(path string, p *Plan) error {
 // ---------- universes ----------
 
 type Universe struct {
-	Depts, DeptNames, People, Names, Nicks, Roles, Badges, Notes, Tickets, Groups, BadgeNos, Memos, TagKeys []string
+	Depts, DeptNames, People, Names, Nicks, Roles, Badges, Notes, Tickets, Groups, BadgeNos, Memos, TagKeys, MemoIds []string
 }
 
 // Ids and values are disjoint alphabets so that "the id occurs nowhere" is decidable by byte search. The people
@@ -144,13 +144,14 @@ var U = Universe{
 	BadgeNos:  []string{"bn1", "bn2", "bn3"},
 	Memos:     []string{"m1", "m2"},
 	TagKeys:   []string{"tk1", "tk2"},
+	MemoIds:   []string{"e1", "e2", "e3", "e4", "e5"},
 }
 
 const nHostilePeople = 5 // quote, backslash, filter syntax, backslash + escape letter, double backslash
 
 func (u Universe) ByStore() map[string][]string {
 	return map[string][]string{StDepts: u.Depts, StPeople: u.People, StStaff: u.People, StPX: u.People, StBadges: u.Badges,
-		StNotes: u.Notes, StTickets: u.Tickets, StGroups: u.Groups}
+		StNotes: u.Notes, StTickets: u.Tickets, StGroups: u.Groups, StMemos: u.MemoIds}
 }
 
 // ---------- generator ----------
@@ -321,7 +322,7 @@ func (g *gen) genOp() Op {
 	sysEntity := g.r.IntN(6) == 0
 	pickStore := func() string {
 		// people family weighted up: it carries most of the wiring
-		return pick(g.r, []string{StDepts, StPeople, StPeople, StPeople, StStaff, StStaff, StPX, StBadges, StNotes, StTickets, StGroups})
+		return pick(g.r, []string{StDepts, StPeople, StPeople, StPeople, StStaff, StStaff, StPX, StBadges, StNotes, StTickets, StGroups, StMemos})
 	}
 	existingIn := func(store string) []string {
 		switch store {
@@ -346,6 +347,8 @@ func (g *gen) genOp() Op {
 			return keysOf(sh.Tickets)
 		case StGroups:
 			return keysOf(sh.Groups)
+		case StMemos:
+			return keysOf(sh.Memos)
 		}
 		return nil
 	}
@@ -370,6 +373,15 @@ func (g *gen) genOp() Op {
 			return g.strp(pick(g.r, []string{"zn", "zt"}))
 		}
 		return g.strp(pick(g.r, g.people()))
+	}
+	refGroup := func() *string {
+		if gs := keysOf(sh.Groups); g.valid() && len(gs) > 0 {
+			return g.strp(pick(g.r, gs))
+		}
+		if g.r.IntN(5) == 0 {
+			return nil
+		}
+		return g.strp(pick(g.r, g.groups()))
 	}
 	switch kind {
 	case "create":
@@ -418,6 +430,10 @@ func (g *gen) genOp() Op {
 		case StNotes, StTickets:
 			if g.r.IntN(5) != 0 {
 				op.Ref = refPerson()
+			}
+		case StMemos:
+			if g.r.IntN(6) != 0 {
+				op.Ref = refGroup()
 			}
 		}
 	case "update":
@@ -468,6 +484,9 @@ func (g *gen) genOp() Op {
 		case StTickets:
 			op.Ref = refPerson()
 			g.checker(&op, []string{"assignee"})
+		case StMemos:
+			op.Ref = refGroup()
+			g.checker(&op, []string{"topic"})
 		}
 	case "delete":
 		op.K, op.S = "delete", pickStore()
@@ -491,8 +510,11 @@ func (g *gen) genOp() Op {
 			}
 		}
 	case "deleteWhere":
-		op.K, op.S = "deleteWhere", pick(g.r, []string{StNotes, StTickets, StBadges, StPeople, StPeople, StStaff})
+		op.K, op.S = "deleteWhere", pick(g.r, []string{StNotes, StTickets, StBadges, StPeople, StPeople, StStaff, StMemos})
 		op.Q = pick(g.r, U.People[:len(U.People)-nHostilePeople]) // query text only from values the existing suite pins
+		if op.S == StMemos {
+			op.Q = pick(g.r, U.Groups[:len(U.Groups)-1])
+		}
 		if op.S == StPeople || op.S == StStaff {
 			op.Q = pick(g.r, U.Names)
 			if ps := keysOf(sh.People); g.valid() && len(ps) > 0 {
@@ -583,7 +605,7 @@ func (g *gen) f6() Fault {
 	}
 	switch site {
 	case "put":
-		keys = append(keys, "name", "nick", "dept", "mentor", "createdAt", "updatedAt", "isSystem", "owner", "about", "assignee", "level", "badgeNo", "memo", "tk1", "tk2")
+		keys = append(keys, "name", "nick", "dept", "mentor", "createdAt", "updatedAt", "isSystem", "owner", "about", "assignee", "topic", "level", "badgeNo", "memo", "tk1", "tk2")
 		keys = append(keys, U.Names...)
 		keys = append(keys, U.DeptNames...)
 		keys = append(keys, U.BadgeNos...)
@@ -658,11 +680,34 @@ func (g *gen) prologue() TxPlan {
 // cascadeBurst: several referrers of one person are created and the person is deleted in the same transaction
 // (cascades and restrict checks then run over buckets already modified in this transaction).
 func (g *gen) cascadeBurst() (TxPlan, bool) {
+	if gs := keysOf(g.shadow.Groups); len(gs) > 0 && g.r.IntN(2) == 0 {
+		// a group and the memos about it: the cascade target has no child stores, so the cascade runs exactly once
+		grp := pick(g.r, gs)
+		tx := TxPlan{Mode: "update"}
+		ids := absent(U.MemoIds, keysOf(g.shadow.Memos))
+		g.r.Shuffle(len(ids), func(i, j int) { ids[i], ids[j] = ids[j], ids[i] })
+		n := 1 + g.r.IntN(5)
+		for i := 0; i < n && i < len(ids); i++ {
+			tx.Ops = append(tx.Ops, Op{K: "create", S: StMemos, Id: ids[i], Ref: g.strp(grp)})
+		}
+		if ex := keysOf(g.shadow.Memos); len(ex) > 0 && g.r.IntN(3) == 0 {
+			tx.Ops = append(tx.Ops, Op{K: "delete", S: StMemos, Id: pick(g.r, ex)})
+		}
+		tx.Ops = append(tx.Ops, Op{K: "delete", S: StGroups, Id: grp})
+		return tx, true
+	}
 	ps := keysOf(g.shadow.People)
 	if len(ps) == 0 {
 		return TxPlan{}, false
 	}
 	p := pick(g.r, ps)
+	// prefer a person whose delete nothing restricts (the burst is about the cascade)
+	for tries := 0; tries < 6; tries++ {
+		if o := g.shadow.Clone().Apply(Op{K: "delete", S: StPeople, Id: p, Sys: true}, 0); o.OK {
+			break
+		}
+		p = pick(g.r, ps)
+	}
 	tx := TxPlan{Mode: "update"}
 	store := pick(g.r, []string{StNotes, StNotes, StBadges})
 	ids := absent(U.ByStore()[store], keysOfAny(g.shadow, store))
@@ -679,7 +724,13 @@ func (g *gen) cascadeBurst() (TxPlan, bool) {
 			tx.Ops = append(tx.Ops, Op{K: "delete", S: store, Id: pick(g.r, ex)})
 		}
 	}
-	del := Op{K: "delete", S: pick(g.r, []string{StPeople, StPeople, StStaff, StPX}), Id: p, Sys: g.shadow.People[p].Sys || g.r.IntN(4) == 0}
+	via := StPeople
+	if mp := g.shadow.People[p]; mp.HasStaff && g.r.IntN(2) == 0 {
+		via = StStaff
+	} else if mp.HasPX && g.r.IntN(2) == 0 {
+		via = StPX
+	}
+	del := Op{K: "delete", S: via, Id: p, Sys: g.shadow.People[p].Sys || g.r.IntN(4) == 0}
 	tx.Ops = append(tx.Ops, del)
 	return tx, true
 }
